@@ -30,6 +30,31 @@ func (a *SArr) Flush() *Term {
 	}
 	sort.Slice(ks, func(i, j int) bool { return ks[i] < ks[j] })
 	t := a.base
+	if len(ks) >= 4096 && ks[0] == 0 && ks[4095] == 4095 {
+		// a whole block was written element-wise: the old contents below 4096 are dead. Start from a
+		// constant array of the most frequent constant value (indices >= 4096 are never read).
+		cnt := map[uint64]int{}
+		best, bestn := uint64(0), 0
+		for _, k := range ks[:4096] {
+			if v := a.ov[k]; v.Op == "c" {
+				cnt[v.C]++
+				if cnt[v.C] > bestn {
+					best, bestn = v.C, cnt[v.C]
+				}
+			}
+		}
+		if bestn > 2048 {
+			t = ConstArr(a.ew, Const(a.ew, best))
+			for _, k := range ks {
+				if v := a.ov[k]; !(v.Op == "c" && v.C == best) || k >= 4096 {
+					t = Store(t, Const(64, k), v)
+				}
+			}
+			a.base = t
+			a.ov = map[uint64]*Term{}
+			return t
+		}
+	}
 	for _, k := range ks {
 		t = Store(t, Const(64, k), a.ov[k])
 	}
